@@ -1,3 +1,4 @@
+import XPathV.Lemmas.FlatOrder
 import XPathV.Model.Api
 import XPathV.Lemmas.Facts
 /-!
@@ -34,5 +35,26 @@ theorem group_positions_global (d : Doc) (cfg : ECfg) (inp : Plan) (c : Ref) (in
     (h : sel (F := F) d cfg inp c = .ok ins) :
     sel (F := F) d cfg (.group inp) c = .ok ((ins.map (·.r)).zipIdx.map (fun (r, i) => ⟨r, i + 1, 0⟩)) := by
   simp [sel, h, bind, Except.bind, numbered]
+
+/-! ## Positions are XPath proximity positions -/
+
+/-- **proximity position**: in a child step over a flat input, the position counter a predicate
+reads for a node is 1 + the number of earlier candidates *of the same parent* — the XPath proximity
+position for the (forward) child axis, restarting for every parent -/
+theorem child_pos_is_proximity {d : Doc} (wf : WF d) (cfg : ECfg) (a : AxisInfo) {p : Plan} (hp : FlatPlan p)
+    (c : Ref) (l : List Item) (h : sel (F := F) d cfg (.child a p) c = .ok l)
+    (A B : List Item) (x : Item) (hl : l = A ++ x :: B) :
+    x.pos = 1 + (A.filter (fun y => Spec.parent? d y.r == Spec.parent? d x.r)).length :=
+  XPathV.child_pos_is_proximity wf cfg a hp c l h A B x hl
+
+/-- **`t[n]`**: a numeric literal predicate on a child step keeps exactly the n-th matching child
+(in document order) of the context node, and this is what the specification's `filterPos` keeps -/
+theorem nth_child {d : Doc} (wf : WF d) (cfg : ECfg) (a : AxisInfo) (lex : String) (c : Ref)
+    (n : Nat) (hn1 : 1 ≤ n) (hn : toInt (Spec.strToNum lex : F) = some (n : Int))
+    (hx : ∀ m, 1 ≤ m → (NumAlg.eq (Spec.strToNum lex : F) (ofNat m) = true ↔ m = n)) :
+    ∃ keep, Spec.filterPos (F := F) (childCands d cfg a c) (Spec.eval d (.num lex)) = .ok keep ∧
+      (sel (F := F) d cfg (.filter (.child a .context) (.constNum lex)) c).map (fun l => l.map (·.r)) = .ok keep ∧
+      keep = ((childCands d cfg a c)[n - 1]?).toList :=
+  XPathV.nth_child_agrees wf cfg a lex c n hn1 hn hx
 
 end XPathV.Theorems.C03
